@@ -45,9 +45,9 @@ def jobs(tier):
         step = 4 if q else 2
         for lo in range(0, len(ORDERS), step):
             hi = min(len(ORDERS), lo + step)
-            out.extend(tjobs(f"{H}:c10_order", t, tier, shrink=shrink, fixed={"mask": 1, "o1": 0},
-                             extra_params=[("order", "int"), ("twice", "int"), ("o0", "int")],
-                             extra_pre=[f"{lo} <= order < {hi}", "0 <= twice < 4", "0 <= o0 <= 1" if q else "0 <= o0 <= 2"],
+            out.extend(tjobs(f"{H}:c10_order", t, tier, shrink=shrink, fixed=dict({"mask": 1, "o1": 0}, **({"o0": 1} if q else {})),
+                             extra_params=[("order", "int"), ("twice", "int")] + ([] if q else [("o0", "int")]),
+                             extra_pre=[f"{lo} <= order < {hi}", "0 <= twice < 2" if q else "0 <= twice < 4"] + ([] if q else ["0 <= o0 <= 2"]),
                              name=f"c10_order_{t}_{lo}", base="c10_order", functions=FUNCS, timeout=400 if q else 1800,
                              note=f"{t}: pass sequences ORDERS[{lo}:{hi}], one position applied twice (idempotence), override of the first constant; "
                                   "oracle: meaning == reference (subcircuits expanded iff expand_subcircuits applied), result generates and re-parses to the same meaning"))
